@@ -1196,11 +1196,27 @@ class Norm:
                 if len(alts) > 1 and all(_ctor_of(q) for q in alts):
                     # `A{x} | B{x} => body` is two arms with the same body (bindings projected from their own variant)
                     ctors = {_ctor_of(q) for q in alts}
+                    # all alternatives share the binding ids; each alternative takes them from its own places
                     for q in alts:
                         mine = _ctor_of(q)
+                        saved, self.defs = self.defs, {}
+                        try:
+                            self._bind_pat(q, ("let", e["scrut"]), ())
+                            mine_defs = self.defs
+                        finally:
+                            self.defs = saved
+                        pairs = []
+                        for bid, (origin, pth, _pat) in mine_defs.items():
+                            if bid in self.defs and self.defs[bid][0][0] == "let" and self.defs[bid][1] != pth:
+                                src = self._project(scr, self.defs[bid][1])
+                                dst = self._project(scr, pth)
+                                pairs.append((src, dst))
 
-                        def ren(n, mine=mine):
-                            if n[0] == "proj" and n[2] in ctors and n[2] != mine:
+                        def ren(n, mine=mine, pairs=pairs):
+                            for src, dst in pairs:
+                                if n == src:
+                                    return dst
+                            if not pairs and n[0] == "proj" and n[2] in ctors and n[2] != mine:
                                 return ("proj", n[1], mine, n[3])
                             return None
                         arms.append((pat_repr(q), rewrite(g, ren) if g else g, rewrite(bt, ren)))
@@ -1266,9 +1282,19 @@ class Norm:
         slots = []
 
         def interp(expr, info):
-            slots.append(self._t(expr))
+            st = self._t(expr)
+            if st[0] == "tpl" and st[1] == "quote" and not (info or {}).get("rep"):
+                # a token stream built by another quote! and interpolated as a whole: its tokens stand in its place
+                base = len(slots)
+                toks = []
+                for tok in st[2].split(" "):
+                    m = re.fullmatch(r"#(\d+)", tok)
+                    toks.append("#%d" % (base + int(m.group(1))) if m else tok)
+                slots.extend(st[3])
+                return " ".join(toks)
+            slots.append(st)
             return "#%d" % (len(slots) - 1)
-        text = T.render(items, interp)
+        text = " ".join(T.render(items, interp).split())
         return ("tpl", kind, text, slots)
 
     def _fmt(self, parts):
